@@ -44,8 +44,6 @@ Record cfg := Cfg {
 (* one map plus the run-global log, fuse and per-operation oracle *)
 Record st := St {
   s_rt : rt;
-  s_hs : N;            (* identity of the map's hash_builder *)
-  s_filed : N;         (* hasher the stored elements are filed under *)
   s_log : log;
   s_fuse : option N;   (* Some n: the (n+1)-th callback from now panics *)
   s_on : N;            (* oracle: how many of this call's main-table insertions reuse a tombstone *)
@@ -76,13 +74,11 @@ Definition rt_abs (r : rt) : gmap N elem :=
   hel (main r) ∪ match lo r with Some o => list_to_emap (orem o) | None => ∅ end.
 
 (* ------------------------------------------------------------ state updates *)
-Definition set_rt (r : rt) (s : st) : st := St r (s_hs s) (s_filed s) (s_log s) (s_fuse s) (s_on s) (s_tomb s) (s_perm s) (s_qperm s).
-Definition set_log (l : log) (s : st) : st := St (s_rt s) (s_hs s) (s_filed s) l (s_fuse s) (s_on s) (s_tomb s) (s_perm s) (s_qperm s).
-Definition set_fuse (f : option N) (s : st) : st := St (s_rt s) (s_hs s) (s_filed s) (s_log s) f (s_on s) (s_tomb s) (s_perm s) (s_qperm s).
-Definition set_on (n : N) (s : st) : st := St (s_rt s) (s_hs s) (s_filed s) (s_log s) (s_fuse s) n (s_tomb s) (s_perm s) (s_qperm s).
-Definition set_tomb (n : N) (s : st) : st := St (s_rt s) (s_hs s) (s_filed s) (s_log s) (s_fuse s) (s_on s) n (s_perm s) (s_qperm s).
-Definition set_hs (h : N) (s : st) : st := St (s_rt s) h (s_filed s) (s_log s) (s_fuse s) (s_on s) (s_tomb s) (s_perm s) (s_qperm s).
-Definition set_filed (h : N) (s : st) : st := St (s_rt s) (s_hs s) h (s_log s) (s_fuse s) (s_on s) (s_tomb s) (s_perm s) (s_qperm s).
+Definition set_rt (r : rt) (s : st) : st := St r (s_log s) (s_fuse s) (s_on s) (s_tomb s) (s_perm s) (s_qperm s).
+Definition set_log (l : log) (s : st) : st := St (s_rt s) l (s_fuse s) (s_on s) (s_tomb s) (s_perm s) (s_qperm s).
+Definition set_fuse (f : option N) (s : st) : st := St (s_rt s) (s_log s) f (s_on s) (s_tomb s) (s_perm s) (s_qperm s).
+Definition set_on (n : N) (s : st) : st := St (s_rt s) (s_log s) (s_fuse s) n (s_tomb s) (s_perm s) (s_qperm s).
+Definition set_tomb (n : N) (s : st) : st := St (s_rt s) (s_log s) (s_fuse s) (s_on s) n (s_perm s) (s_qperm s).
 
 Notation M' := (M st).
 
